@@ -35,6 +35,14 @@ def decode_escapes(s):
     return ESCAPE_SEQUENCE_RE.sub(decode_match, s)
 
 
+def _decode_string_token(t):
+    try:
+        return decode_escapes(t.value[1:-1])
+    except ValueError:
+        # ill-formed escape sequence (e.g. '\\xzz'): UnicodeDecodeError
+        raise exceptions.YaqlLexicalException(t.value, t.lexpos)
+
+
 # noinspection PyPep8Naming
 class Lexer:
     t_ignore = ' \t\r\n'
@@ -89,10 +97,13 @@ class Lexer:
         """
         \\b\\d+(\\.?\\d+)?\\b
         """
-        if '.' in t.value:
-            t.value = float(t.value)
-        else:
-            t.value = int(t.value)
+        try:
+            if '.' in t.value:
+                t.value = float(t.value)
+            else:
+                t.value = int(t.value)
+        except ValueError:
+            raise exceptions.YaqlLexicalException(t.value, t.lexpos)
         return t
 
     @staticmethod
@@ -120,7 +131,7 @@ class Lexer:
         """
         '([^'\\\\]|\\\\.)*'
         """
-        t.value = decode_escapes(t.value[1:-1])
+        t.value = _decode_string_token(t)
         return t
 
     @staticmethod
@@ -128,7 +139,7 @@ class Lexer:
         """
         "([^"\\\\]|\\\\.)*"
         """
-        t.value = decode_escapes(t.value[1:-1])
+        t.value = _decode_string_token(t)
         t.type = 'QUOTED_STRING'
         return t
 
